@@ -92,7 +92,7 @@ Notation exec := (@exec F OF feq stop).
 Definition hst (T0 T Z M X A P k save beta temp j alpha khalf kj : value) : store :=
   [T0; T; Z; M; X; A; P; k; save; beta; temp; j; alpha; khalf; kj].
 
-Ltac ev := cbn [LoopIR.exec LoopIR.eval get set nth hst bind try asZ asArr asF ok err fst snd arith arithZ fop compare cmpZ eqne truthy eval_list].
+Ltac ev := cbn [LoopIR.exec LoopIR.eval get set nth hst bind try asZ asArr asF ok err fst snd arith arithZ fop compare cmpF cmpZ eqne truthy eval_list].
 
 (* the two accumulations of one pass *)
 Lemma her_acc_ok vT0 tT T vZ vM tX X tA A vP m s0 b0 vtemp vj valpha vkh vkj :
@@ -360,7 +360,7 @@ Local Open Scope list_scope.
 Notation value := (@value F).
 Notation store := (@store F).
 Notation exec := (@exec F OF feq stop).
-Ltac ev := cbn [LoopIR.exec LoopIR.eval get set nth hst bind try asZ asArr asF ok err fst snd arith arithZ fop compare cmpZ eqne truthy eval_list].
+Ltac ev := cbn [LoopIR.exec LoopIR.eval get set nth hst bind try asZ asArr asF ok err fst snd arith arithZ fop compare cmpF cmpZ eqne truthy eval_list].
 
 Lemma her_outer_ok vT0 tT T tZ Z M tX tA T0 vk vsave vbeta vtemp vj valpha vkh vkj :
   (M <= length T)%nat -> (M + 1 <= length Z)%nat -> forall m, (m <= M)%nat ->
